@@ -284,7 +284,7 @@ def write_evidence(prop, tier, seed, coverage, assumptions, wall_s, violations):
     return ev
 
 
-class _Limit(Exception):
+class _Limit(BaseException):
     pass
 
 
